@@ -28,6 +28,7 @@ CONSTANTS N,              \* blocks are 1..N ; 0 is genesis
           AnnMax,         \* max headers in an unsolicited announcement (Bitcoin Core: 8), else a block inv is sent
           MaxTip,         \* bound on peer best-tip changes
           MaxRestart,     \* bound on time-out reconnects (-1 = unbounded)
+          Drops,          \* TRUE: the connection may also be lost at any moment (counts against MaxRestart)
           MaxPR,          \* bound on process restarts
           MaxDup,         \* bound on duplicated deliveries
           MaxAdv,         \* bound on adversarial messages from the trusted connection (C02)
@@ -309,22 +310,24 @@ Handle(m) == IF m.t = "hdr" THEN HandleHeaders(m.hs) ELSE HandleBlock(m.b, m.f)
 
 Deliver(i, keep) ==      \* one message of the trusted connection is handled (node.go:782 monitorIncoming)
   /\ i \in 1..Len(net) /\ (Fifo => i = 1)
-  /\ ~(chk /\ CheckGuard) /\ chk' = TRUE
+  /\ ~(chk /\ CheckGuard)
   /\ IF keep THEN dups < MaxDup /\ dups' = dups + 1 /\ UNCHANGED net
              ELSE net' = SubSeq(net, 1, i - 1) \o SubSeq(net, i + 1, Len(net)) /\ UNCHANGED dups
   /\ Handle(net[i])
   /\ act' = [AM("Deliver", net[i], keep) EXCEPT !.t = i]
   /\ UNCHANGED <<ptip, tipc, pann, sendhdrs, infl, hsDone, notified, ann, badNotify, restarts, prs, advs, unts>>
+  /\ chk' = CheckGuard'      \* check() runs right behind the handler; if it has nothing to do then, nothing is owed
 
 (* C02: no assumption that the trusted peer is well behaved *)
 HdrLists == {<<>>} \cup {<<b>> : b \in Blocks \cup {Unknown}}
             \cup {<<a, b>> : a \in Blocks \cup {Unknown}, b \in Blocks}
 AdvMsg(m) ==
   /\ advs < MaxAdv /\ advs' = advs + 1
-  /\ ~(chk /\ CheckGuard) /\ chk' = TRUE
+  /\ ~(chk /\ CheckGuard)
   /\ Handle(m)
   /\ act' = AM("AdvMsg", m, FALSE)
   /\ UNCHANGED <<ptip, tipc, pann, sendhdrs, net, infl, hsDone, notified, ann, badNotify, restarts, prs, dups, unts>>
+  /\ chk' = CheckGuard'
 
 (* C12: handlers/block.go on an untrusted connection shares the request state *)
 UntrustedBlock(b, f) ==
@@ -347,6 +350,18 @@ Restart ==
   /\ req' = <<>> /\ toReq' = <<>> /\ net' = <<>> /\ out' = <<>> /\ sendhdrs' = FALSE
   /\ pann' = 0
   /\ act' = A0("Restart") /\ chk' = FALSE
+  /\ UNCHANGED <<ptip, tipc, chain, startH, lastSaved, infl, notified, ann, badNotify, prs, dups, advs, unts>>
+
+(* The connection is lost (read or write error: node.go:790 monitorIncoming / :701 sendOutgoing -> restart()): Run saves, resets *)
+(* the state (state.go Reset) and reconnects; whatever was in flight in either direction is gone.                              *)
+Drop ==
+  /\ Drops /\ (MaxRestart < 0 \/ restarts < MaxRestart)
+  /\ restarts' = IF MaxRestart < 0 THEN restarts ELSE restarts + 1
+  /\ infl = None /\ hsDone
+  /\ hsDone' = FALSE /\ inSync' = FALSE /\ hdrReq' = FALSE /\ pendSync' = FALSE
+  /\ req' = <<>> /\ toReq' = <<>> /\ net' = <<>> /\ out' = <<>> /\ sendhdrs' = FALSE
+  /\ pann' = 0
+  /\ act' = A0("Drop") /\ chk' = FALSE
   /\ UNCHANGED <<ptip, tipc, chain, startH, lastSaved, infl, notified, ann, badNotify, prs, dups, advs, unts>>
 
 (* Stop (saves everything) and a new process on the same storage: node.go:289 load() *)
@@ -376,7 +391,7 @@ Next ==
   \/ Check \/ ProcPop \/ ProcCheck \/ ProcAdd
   \/ \E m \in AdvMsgs : AdvMsg(m)
   \/ \E b \in Blocks, f \in {1, 2} : UntrustedBlock(b, f)
-  \/ Restart \/ ProcRestart
+  \/ Restart \/ ProcRestart \/ Drop
 
 Fairness ==
   /\ WF_vars(Check) /\ WF_vars(ProcPop) /\ WF_vars(ProcCheck) /\ WF_vars(ProcAdd)
